@@ -650,8 +650,11 @@ func (e *Engine) verifyFunc(c *Contract) *VC {
 			}
 			side2 = side2[:0]
 			vc.oblige(r.s, fmt.Sprintf("post%d.ret", i+1), t, fi.Decl.Pos(), fmt.Sprintf("postcondition %d of %s at return %d: %s", i+1, c.Key, ri+1, en.Text))
-			// later postconditions may build on earlier ones (each is proved from the facts before it)
-			r.s.assume(t)
+			// later postconditions may build on earlier ones (each is proved from the facts before it); not in
+			// the bounded fallback, where quantified assumptions would keep the solvers from returning models
+			if len(vc.stale) == 0 {
+				r.s.assume(t)
+			}
 		}
 	}
 	return vc
